@@ -175,6 +175,7 @@ class Executor:
         self.notes = []
         self.env = {}         # harness / environment model state for this path
         self._divcache = {}
+        self.max_decisions = 3000
         self.obligations = []
         self._divkeep = []
         self.depth = 0
@@ -185,6 +186,10 @@ class Executor:
         name = '%s#%d' % (name or ty, self.counter)
         c = z3.BitVec(name, INT_BITS[ty])
         self.inputs.append((name, c, ty))
+        pin = self.env.get('pin')
+        if pin is not None and name in pin:
+            # replay mode: the input stays a symbol (so the decision trace lines up) but is pinned
+            self.solver.add(c == z3.BitVecVal(pin[name], INT_BITS[ty]))
         return Int(ty, c)
 
     def fresh_bool(self, name=None):
@@ -192,6 +197,9 @@ class Executor:
         name = '%s#%d' % (name or 'b', self.counter)
         c = z3.Bool(name)
         self.inputs.append((name, c, 'bool'))
+        pin = self.env.get('pin')
+        if pin is not None and name in pin:
+            self.solver.add(c == bool(pin[name]))
         return c
 
     # ------------------------------------------------------------------ solver
@@ -267,11 +275,14 @@ class Executor:
         opts = []
         if self._check(cond):
             opts.append(True)
-        if self._check(z3.Not(cond)):
+            if self._check(z3.Not(cond)):
+                opts.append(False)
+        else:
+            # the path condition is satisfiable (invariant), so the other side must be feasible
             opts.append(False)
-        if not opts:
-            raise Infeasible()
         self.trace.append([0, len(opts), tag, opts])
+        if len(self.trace) > self.max_decisions:
+            raise BoundExceeded('more than %d decisions on one path' % self.max_decisions)
         val = opts[0]
         if len(opts) > 1:
             self.solver.add(cond if val else z3.Not(cond))
@@ -585,6 +596,12 @@ class Executor:
             return Opaque('float', float(m.group(1)))
         if t.startswith('b"'):
             return Opaque('bytes', t)
+        m = re.search(r'::promoted\[(\d+)\]$', t)
+        if m and frame is not None:
+            f = self.prog.consts.get(frame.fn.name + '::promoted[%s]' % m.group(1))
+            if f is not None:
+                return self.call_function(f, [])
+            return Opaque('const', t)
         # unit enum variant or named constant
         v = self.path_value(t)
         if v is not None:
@@ -610,8 +627,11 @@ class Executor:
                         return Enum(strip_generics(c.typath), name, idx, [])
         # named constants of the crate (`const NAME: T = { .. }` appear as MIR bodies)
         if re.fullmatch(r'[A-Z][A-Z0-9_]*', c.method):
-            known = {'HEADER_SIZE': None}
-            raise Unsupported('named constant ' + path)
+            cands = [f for n, f in self.prog.consts.items() if n == path or n.endswith('::' + c.method) or
+                     n == c.method]
+            if len(cands) == 1:
+                return self.call_function(cands[0], [])
+            return Opaque('const', path)
         if c.method[:1].isupper():
             return Agg('struct', strip_generics(path), [], [])
         return None
